@@ -126,4 +126,14 @@ def WF : Msg → Prop
   | .request => True
   | .status acs => ∀ a ∈ acs, WFRec a
 
+/-- run-time test of `WFRec` -/
+def wfRecBool (a : AcStatusData) : Bool :=
+  decide (a.ac_number < 16) && decide (100 ≤ a.set_point) && decide (a.set_point ≤ 355) &&
+  decide (-500 ≤ a.temperature) && decide (a.temperature ≤ 1547) && decide (a.error_code < 65536)
+
+/-- run-time test of `WF` -/
+def wfBool : Msg → Bool
+  | .request => true
+  | .status acs => acs.all wfRecBool
+
 end PyAirtouch.Model.At5.C023
